@@ -91,6 +91,7 @@ struct C16 : vr::Driver {
     }
     return "";
   }
+  double scenarioTimeoutSec() override { return 900; }  // thorough parts enumerate tens of millions of strings
   std::string klass(size_t i) override { return std::string(1, parts[i].kind); }
   void workerInit() override { sim::processInit(); }
 
